@@ -93,6 +93,11 @@ def isPrefix : List String → List String → Bool
 def classify (gate : List String) : Option String :=
   (IpaVerif.Generated.coverageTable.find? (fun row => isPrefix row.1 gate)).map (·.2)
 
+/-- a gate-path segment with its trailing digits written `#` (`bit12` -> `bit#`), as in the coverage table -/
+def normSeg (s : String) : String :=
+  let t := (s.toList.reverse.dropWhile Char.isDigit).reverse
+  if t.length < s.length then String.ofList t ++ "#" else s
+
 def protectedKinds : List String := ["dzkp", "dzkpProof", "mac", "macCheck", "shuffle", "count"]
 
 /-! ## Order of traffic: validate before open
@@ -255,5 +260,58 @@ def shardClass (gate : List String) : String :=
   | none => match gate with
     | g :: _ => g
     | [] => "other"
+
+/-! ## Multiplications that bypass the context dispatch (b14, seed C02c)
+
+Protocol code is generic in its context `C`. Under a DZKP-upgraded malicious context a multiplication gate is proven
+only if its `(x, y, prss, z)` tuple is pushed into the validator's batch, which is what `zkp_multiply` does and what the
+`multiply` impls of that context dispatch to. A protocol that names `semi_honest_multiply` (or the bare
+`multiplication_protocol`) instead sends the same bytes on the same gate but records nothing: no proof covers the gate.
+The translator lists EVERY call site of those routines in non-test code below `ipa-core/src/protocol`
+(`Generated.directMulSites`); each must be one of the sites below, whose enclosing routine never runs on a gate of a
+DZKP-validated phase that its validator does not cover. -/
+
+/-- Why a direct call of an unrecorded multiplication routine at `(file, fn, callee)` leaves no gate of a DZKP-validated
+phase unproven; `none` = no reason known (a protocol bypassing the dispatch).
+* `definition` / `semiHonestContext`: the routine itself and the `multiply` impls of the semi-honest contexts
+  (`SemiHonestContext`, `UpgradedSemiHonestContext`, `SemiHonestDZKPUpgraded`: the context type is fixed by the impl);
+* `dzkpRecorded`: `zkp_multiply`, which pushes the segment right after (`zkpRecords`);
+* `mac`: `mac_multiply` / `upgrade` take an `UpgradedMaliciousContext`: the product is covered by the MAC accumulators (C04);
+* `macCheck`: `r·v` of `malicious_check_zero`, run on the base context inside `validate` of the MAC validator (C04);
+* `shuffle`: the tags of the verified shuffle (`generate_tags` gates: covered by the shuffle's own check, C05). -/
+def directMulCover (s : String × String × String) : Option String :=
+  if s = ("protocol/basics/mul/semi_honest.rs", "sh_multiply", "multiplication_protocol") then some "definition"
+  else if s = ("protocol/basics/mul/semi_honest.rs", "multiply", "sh_multiply") then some "semiHonestContext"
+  else if s = ("protocol/basics/mul/mod.rs", "multiply", "semi_honest_multiply") then some "semiHonestContext"
+  else if s = ("protocol/basics/mul/dzkp_malicious.rs", "zkp_multiply", "multiplication_protocol") then some "dzkpRecorded"
+  else if s = ("protocol/basics/mul/malicious.rs", "mac_multiply", "semi_honest_multiply") then some "mac"
+  else if s = ("protocol/context/malicious.rs", "upgrade", "semi_honest_multiply") then some "mac"
+  else if s = ("protocol/basics/check_zero.rs", "malicious_check_zero", "semi_honest_multiply") then some "macCheck"
+  else if s = ("protocol/ipa_prf/shuffle/malicious.rs", "compute_and_add_tags", "semi_honest_multiply") then some "shuffle"
+  else none
+
+/-- `zkp_multiply`: multiply, build the segment from both inputs, both masks and the received `z`, push it, return. -/
+def zkpRecords (body : List String) : Bool :=
+  body == [
+    "let z = multiplication_protocol(&ctx, record_id, a, b, &prss_left, &prss_right).await?;",
+    "let segment = Segment::from_entries( F::as_segment_entry(a.left_arr()), F::as_segment_entry(a.right_arr()), F::as_segment_entry(b.left_arr()), F::as_segment_entry(b.right_arr()), F::as_segment_entry(&prss_left), F::as_segment_entry(&prss_right), F::as_segment_entry(z.right_arr()), );",
+    "ctx.push(record_id, segment);",
+    "Ok(z)"]
+
+/-- How protocol code running under a DZKP-upgraded malicious context invokes a multiplication gate. -/
+inductive MulSite where
+  /-- `a.multiply(b, ctx, record_id)` (`SecureMul`) / `B::multiply(ctx, …)` (`BooleanArrayMul`) -/
+  | dispatched (trait : String)
+  /-- a routine called by name -/
+  | direct (site : String × String × String)
+
+/-- Does the gate's `(x, y, prss, z)` tuple reach the validator's batch? -/
+def recorded (dispatch : List (String × String)) (zkpBody : List String) : MulSite → Bool
+  | .dispatched t => dispatch.lookup t == some "zkp_multiply" && zkpRecords zkpBody
+  | .direct s => directMulCover s == some "dzkpRecorded" && zkpRecords zkpBody
+
+/-- sites that never run on a gate of a DZKP-validated phase (see `directMulCover`) -/
+def outsideDzkp (s : String × String × String) : Bool :=
+  [some "definition", some "semiHonestContext", some "mac", some "macCheck", some "shuffle"].contains (directMulCover s)
 
 end IpaVerif.Malicious
